@@ -42,6 +42,7 @@ CONSTANTS
   WithRtcp, WithTick,
   RtpForgeKinds, RtcpForgeKinds,   \* forgery classes explored
   ForgeOffsets,  \* forged sequence numbers, relative to the receiver's highest (and 0 when it has none)
+  ForgeReps,     \* a forgery is presented this many times in a row (failure counters, rate-limited paths)
   Deviations,    \* subset of {"RtcpIndexBeforeAuth", "TableBeforeAuth", "RtpUpdateBeforeAuth", "EstimateSlack"}
   Props          \* listed properties whose rules are switched on: subset of {"C04", "C05", "EXT"}
 
@@ -52,12 +53,13 @@ VARIABLES
   got,     \* packets delivered at least once
   rx,      \* receiver context table: AllSsrcs -> [on, roc, last, rtcp, idle]
   start,   \* the initial synchronised indices (constant along a behaviour)
+  ideal,   \* ghost: highest genuine index ever accepted per SSRC by a receiver that never forgets (-1 = none)
   hist,    \* actions so far (replayed by the harness)
   step     \* description of the last action (what the rules speak about)
 
-vars == <<sHi, sRtcp, sent, got, rx, start, hist, step>>
+vars == <<sHi, sRtcp, sent, got, rx, start, ideal, hist, step>>
 \* hist/step are bookkeeping; they never influence a later step
-view == <<sHi, sRtcp, sent, got, rx, start>>
+view == <<sHi, sRtcp, sent, got, rx, start, ideal>>
 
 Rule(p, e) == (p \in Props) => e
 
@@ -99,6 +101,9 @@ Crypto(t) == [k \in AllSsrcs |-> IF t[k].on THEN <<t[k].roc, t[k].last, t[k].rtc
 MustAcceptIdx(c, i) == IF c.last < 0 THEN RocNo(i) = 0 ELSE Abs(i - Hi(c)) < Half
 \* what the intended receiver does with it (also outside the window: decided by the estimate)
 WouldAcceptIdx(c, i) == EstimateRoc(c.roc, c.last, SeqNo(i)) = RocNo(i)
+\* the same window measured from what a receiver that never evicts a context would remember
+IdealMustAt(id, k, i) == IF id[k] < 0 THEN RocNo(i) = 0 ELSE Abs(i - id[k]) < Half
+IdealMust(k, i) == IdealMustAt(ideal, k, i)
 
 ---------------------------------------------------------------------------
 (* Context table                                                            *)
@@ -130,16 +135,17 @@ RecvRtcp(t, k, genuine, idx) ==
 
 ---------------------------------------------------------------------------
 NoStep == [op |-> "init", proto |-> "", ssrc |-> 0, idx |-> -1, kind |-> "", x |-> -1,
-           forged |-> FALSE, acc |-> FALSE, must |-> FALSE, replay |-> FALSE, est |-> -1]
+           forged |-> FALSE, acc |-> FALSE, must |-> FALSE, replay |-> FALSE, est |-> -1, imust |-> FALSE, rep |-> 1]
 
-\* hist entry: <<op, proto, ssrc, idx, kind, x, acc, must, replay>>
+\* hist entry: <<op, proto, ssrc, idx, kind, x, acc, must, replay, rep>>
 Log(s) == hist' = Append(hist, <<s.op, s.proto, s.ssrc, s.idx, s.kind, s.x,
-                                 IF s.acc THEN 1 ELSE 0, IF s.must THEN 1 ELSE 0, IF s.replay THEN 1 ELSE 0>>)
+                                 IF s.acc THEN 1 ELSE 0, IF s.must THEN 1 ELSE 0, IF s.replay THEN 1 ELSE 0, s.rep>>)
 Do(s) == step' = s /\ Log(s)
 
 Init ==
   /\ start \in [Ssrcs -> Starts]
   /\ sHi = start
+  /\ ideal = start
   /\ sRtcp = [s \in Ssrcs |-> 0]
   /\ sent = {Pkt("rtp", s, start[s]) : s \in {q \in Ssrcs : start[q] >= 0}}
   /\ got = sent
@@ -164,7 +170,7 @@ Protect(s, i) ==
      IN /\ sent' = sent \cup {Pkt("rtp", s, est)}
         /\ Do([NoStep EXCEPT !.op = "protect", !.proto = "rtp", !.ssrc = s, !.idx = i, !.est = est])
   /\ sHi' = [sHi EXCEPT ![s] = MaxOf(@, i)]
-  /\ UNCHANGED <<sRtcp, got, rx, start>>
+  /\ UNCHANGED <<sRtcp, got, rx, start, ideal>>
 
 ProtectRtcp(s) ==
   /\ WithRtcp
@@ -172,7 +178,7 @@ ProtectRtcp(s) ==
   /\ sRtcp' = [sRtcp EXCEPT ![s] = @ + 1]
   /\ sent' = sent \cup {Pkt("rtcp", s, sRtcp[s] + 1)}
   /\ Do([NoStep EXCEPT !.op = "protect", !.proto = "rtcp", !.ssrc = s, !.idx = sRtcp[s] + 1, !.est = sRtcp[s] + 1])
-  /\ UNCHANGED <<sHi, got, rx, start>>
+  /\ UNCHANGED <<sHi, got, rx, start, ideal>>
 
 \* the network hands a genuine packet to the receiver (first time or again)
 Deliver(p) ==
@@ -183,7 +189,9 @@ Deliver(p) ==
      IN /\ rx' = r.t
         /\ Do([NoStep EXCEPT !.op = "deliver", !.proto = p.proto, !.ssrc = p.ssrc, !.idx = p.idx,
                              !.acc = r.ok, !.replay = (p \in got),
-                             !.must = IF p.proto = "rtp" THEN MustAcceptIdx(c, p.idx) ELSE TRUE])
+                             !.must = IF p.proto = "rtp" THEN MustAcceptIdx(c, p.idx) ELSE TRUE,
+                             !.imust = IF p.proto = "rtp" THEN IdealMust(p.ssrc, p.idx) ELSE TRUE])
+        /\ ideal' = IF p.proto = "rtp" /\ r.ok THEN [ideal EXCEPT ![p.ssrc] = MaxOf(@, p.idx)] ELSE ideal
   /\ got' = got \cup {p}
   /\ UNCHANGED <<sHi, sRtcp, sent, start>>
 
@@ -193,7 +201,20 @@ ForgeSeqs(c) == {q \in SeqAlpha : \E d \in ForgeOffsets : q = ((IF c.last < 0 TH
 \* kinds that alter a genuine packet without touching its sequence number
 BaseKinds   == {"flip_hdr", "flip_csrc_ext", "flip_payload", "flip_tag", "truncate", "extend"}
 \* "reseq": a genuine packet with its sequence number rewritten; "wrongkey": protected under another key
-ForgeRtp(kind, k, base, seq) ==
+\* n presentations of the same forgery: the receiver's reaction applied n times (its effect is idempotent from the
+\* third application on in every variant of the model, so three applications stand for any n >= 3)
+RepRtp(t, k, seq, n) ==
+  LET t1 == RecvRtp(t, k, FALSE, seq, 0).t
+      t2 == RecvRtp(t1, k, FALSE, seq, 0).t
+      t3 == RecvRtp(t2, k, FALSE, seq, 0).t
+  IN IF n = 1 THEN t1 ELSE IF n = 2 THEN t2 ELSE t3
+RepRtcp(t, k, x, n) ==
+  LET t1 == RecvRtcp(t, k, FALSE, x).t
+      t2 == RecvRtcp(t1, k, FALSE, x).t
+      t3 == RecvRtcp(t2, k, FALSE, x).t
+  IN IF n = 1 THEN t1 ELSE IF n = 2 THEN t2 ELSE t3
+
+ForgeRtp(kind, k, base, seq, rep) ==
   /\ kind \in RtpForgeKinds
   /\ \/ /\ kind \in BaseKinds /\ Pkt("rtp", k, base) \in sent /\ seq = SeqNo(base)
      \/ /\ kind = "reseq" /\ Pkt("rtp", k, base) \in sent /\ seq # SeqNo(base)
@@ -202,14 +223,14 @@ ForgeRtp(kind, k, base, seq) ==
         /\ seq \in ForgeSeqs(IF rx[k].on THEN rx[k] ELSE FreshCtx)
      \/ /\ kind = "newssrc" /\ k \in ForgedSsrcs /\ base = -1 /\ seq = 0
   /\ LET r == RecvRtp(rx, k, FALSE, seq, 0)
-     IN /\ rx' = r.t
+     IN /\ rx' = RepRtp(rx, k, seq, rep)
         /\ Do([NoStep EXCEPT !.op = "forge", !.proto = "rtp", !.ssrc = k, !.idx = base, !.kind = kind,
-                             !.x = seq, !.forged = TRUE, !.acc = r.ok])
-  /\ UNCHANGED <<sHi, sRtcp, sent, got, start>>
+                             !.x = seq, !.forged = TRUE, !.acc = r.ok, !.rep = rep])
+  /\ UNCHANGED <<sHi, sRtcp, sent, got, start, ideal>>
 
 RtcpBaseKinds == {"flip_hdr", "flip_payload", "flip_tag", "flip_ebit", "truncate", "extend"}
 \* "reindex": a genuine SRTCP packet with its index field rewritten to x
-ForgeRtcp(kind, k, base, x) ==
+ForgeRtcp(kind, k, base, x, rep) ==
   /\ WithRtcp
   /\ kind \in RtcpForgeKinds
   /\ \/ /\ kind \in RtcpBaseKinds /\ Pkt("rtcp", k, base) \in sent /\ x = base
@@ -218,10 +239,10 @@ ForgeRtcp(kind, k, base, x) ==
      \/ /\ kind = "wrongkey" /\ k \in Ssrcs /\ base = -1 /\ x \in {rx[k].rtcp, rx[k].rtcp + 1, rx[k].rtcp + 5}
      \/ /\ kind = "newssrc" /\ k \in ForgedSsrcs /\ base = -1 /\ x = 1
   /\ LET r == RecvRtcp(rx, k, FALSE, x)
-     IN /\ rx' = r.t
+     IN /\ rx' = RepRtcp(rx, k, x, rep)
         /\ Do([NoStep EXCEPT !.op = "forge", !.proto = "rtcp", !.ssrc = k, !.idx = base, !.kind = kind,
-                             !.x = x, !.forged = TRUE, !.acc = r.ok])
-  /\ UNCHANGED <<sHi, sRtcp, sent, got, start>>
+                             !.x = x, !.forged = TRUE, !.acc = r.ok, !.rep = rep])
+  /\ UNCHANGED <<sHi, sRtcp, sent, got, start, ideal>>
 
 \* 60 s pass: every context that saw nothing since becomes stale
 Tick ==
@@ -229,26 +250,26 @@ Tick ==
   /\ \E k \in AllSsrcs : rx[k].on /\ ~rx[k].idle
   /\ rx' = [k \in AllSsrcs |-> IF rx[k].on THEN [rx[k] EXCEPT !.idle = TRUE] ELSE rx[k]]
   /\ Do([NoStep EXCEPT !.op = "tick"])
-  /\ UNCHANGED <<sHi, sRtcp, sent, got, start>>
+  /\ UNCHANGED <<sHi, sRtcp, sent, got, start, ideal>>
 
 SentIdx(proto, k) == {p.idx : p \in {pp \in sent : pp.proto = proto /\ pp.ssrc = k}}
 CtxOf(k) == IF rx[k].on THEN rx[k] ELSE FreshCtx
 
-ForgeRtpAny ==
+ForgeRtpAny == \E rep \in ForgeReps :
   \/ \E kind \in RtpForgeKinds \cap BaseKinds, k \in Ssrcs : \E base \in SentIdx("rtp", k) :
-        ForgeRtp(kind, k, base, SeqNo(base))
+        ForgeRtp(kind, k, base, SeqNo(base), rep)
   \/ \E k \in Ssrcs : \E q \in ForgeSeqs(CtxOf(k)) :
-        \/ ForgeRtp("wrongkey", k, -1, q)
-        \/ \E base \in SentIdx("rtp", k) : ForgeRtp("reseq", k, base, q)
-  \/ \E k \in ForgedSsrcs : ForgeRtp("newssrc", k, -1, 0)
+        \/ ForgeRtp("wrongkey", k, -1, q, rep)
+        \/ \E base \in SentIdx("rtp", k) : ForgeRtp("reseq", k, base, q, rep)
+  \/ \E k \in ForgedSsrcs : ForgeRtp("newssrc", k, -1, 0, rep)
 
-ForgeRtcpAny ==
+ForgeRtcpAny == \E rep \in ForgeReps :
   \/ \E kind \in RtcpForgeKinds \cap RtcpBaseKinds, k \in Ssrcs : \E base \in SentIdx("rtcp", k) :
-        ForgeRtcp(kind, k, base, base)
+        ForgeRtcp(kind, k, base, base, rep)
   \/ \E k \in Ssrcs : \E x \in {0, rx[k].rtcp, rx[k].rtcp + 1, rx[k].rtcp + 5} :
-        \/ ForgeRtcp("wrongkey", k, -1, x)
-        \/ \E base \in SentIdx("rtcp", k) : ForgeRtcp("reindex", k, base, x)
-  \/ \E k \in ForgedSsrcs : ForgeRtcp("newssrc", k, -1, 1)
+        \/ ForgeRtcp("wrongkey", k, -1, x, rep)
+        \/ \E base \in SentIdx("rtcp", k) : ForgeRtcp("reindex", k, base, x, rep)
+  \/ \E k \in ForgedSsrcs : ForgeRtcp("newssrc", k, -1, 1, rep)
 
 Next ==
   /\ Len(hist) < MaxLen
@@ -294,6 +315,11 @@ IndexMonotone == [][ Rule("EXT", \A s \in Ssrcs : (rx[s].on /\ rx'[s].on) =>
                                      (Hi(rx'[s]) >= Hi(rx[s]) /\ rx'[s].rtcp >= rx[s].rtcp)) ]_vars
 \* genuine SRTCP is accepted in any order
 RtcpAccepted == Rule("EXT", (step.op = "deliver" /\ step.proto = "rtcp") => step.acc)
+
+\* (EXT) context eviction never costs a stream: what a never-forgetting receiver must accept, this one must accept.
+\* Fails by design once more than Watermark streams are live and one has been silent for 60 s (named rule, not part
+\* of the default PROPERTIES: the code documents the trade-off).
+NoLossByEviction == Rule("EXT", (step.op = "deliver" /\ step.imust /\ ~step.replay) => step.acc)
 
 TypeOK ==
   /\ \A s \in Ssrcs : sHi[s] \in -1..TopIdx
